@@ -150,6 +150,7 @@ Proof.
     + destruct outs as [|o [|o2 rest]]; try discriminate. intros H. injection H as <-. reflexivity.
     + destruct outs as [|o [|o2 rest]]; try discriminate. destruct (all_files _); [|discriminate].
       intros H. injection H as <-. reflexivity.
+    + destruct outs as [|o [|o2 rest]]; try discriminate. intros H. injection H as <-. reflexivity.
     + discriminate.
   - discriminate.
   - destruct outs as [|o [|o2 rest]]; try discriminate. intros H. injection H as <-. reflexivity.
